@@ -263,6 +263,15 @@ func (c *EvalCtx) norm(v Value) Value {
 		if x.Cell == -1 && x.NilT == nil {
 			return CNil{}
 		}
+		// a pointer to a list (captured slice variable) reads as the list
+		if x.Cell > 0 && len(x.Path) == 0 {
+			st := c.state()
+			if cv, ok := st.cells[x.Cell]; ok {
+				if l, ok := cv.(VList); ok {
+					return l
+				}
+			}
+		}
 		return x
 	case CComp:
 		return c.resolve(x)
@@ -532,9 +541,17 @@ func (c *EvalCtx) binary(e *Expr) Value {
 	op := e.Name
 	switch op {
 	case "&&":
-		return VBool{And(c.asBool(c.eval(e.Args[0])), c.asBool(c.eval(e.Args[1])))}
+		l := c.asBool(c.eval(e.Args[0]))
+		if l == TFalse {
+			return VBool{TFalse} // short-circuit: the right operand may not be well-defined
+		}
+		return VBool{And(l, c.asBool(c.eval(e.Args[1])))}
 	case "||":
-		return VBool{Or(c.asBool(c.eval(e.Args[0])), c.asBool(c.eval(e.Args[1])))}
+		l := c.asBool(c.eval(e.Args[0]))
+		if l == TTrue {
+			return VBool{TTrue}
+		}
+		return VBool{Or(l, c.asBool(c.eval(e.Args[1])))}
 	case "==>":
 		a := c.asBool(c.eval(e.Args[0]))
 		if a == TFalse {
@@ -1101,6 +1118,23 @@ func (c *EvalCtx) call(e *Expr) Value {
 		t = Cat(t, amt)
 		t = Cat(t, fixN(c.bytesArg(e.Args[4]), 32))
 		return VStr{t}
+	case "stLimits", "stPairs", "stNonces", "stMessengers":
+		// the other four collections as ordered lists (abstract; see spec.go)
+		argn(0)
+		st := c.state()
+		if c.ex.mode == "L2" {
+			fail("%s() is an L3 notion", e.Name)
+		}
+		prefix, cnt, typ := map[string][3]string{"stLimits": {"limitList", "nLimits", "PerMessageBurnLimit"}, "stPairs": {"pairList", "nPairs", "TokenPair"},
+			"stNonces": {"nonceList", "nNonces", "Nonce"}, "stMessengers": {"msgrList", "nMsgrs", "RemoteTokenMessenger"}}[e.Name][0], "", ""
+		m := map[string][3]string{"stLimits": {"limitList", "nLimits", "PerMessageBurnLimit"}, "stPairs": {"pairList", "nPairs", "TokenPair"},
+			"stNonces": {"nonceList", "nNonces", "Nonce"}, "stMessengers": {"msgrList", "nMsgrs", "RemoteTokenMessenger"}}[e.Name]
+		prefix, cnt, typ = m[0], m[1], m[2]
+		l := VList{ElemT: c.ex.pkgs[repoPrefix+"/types"].Type(typ).Type(), Len: st.abs[cnt], Cols: map[string]*Term{}}
+		for _, cp := range compsWithPrefix(prefix) {
+			l.Cols[strings.TrimPrefix(cp.Name, prefix+".")] = st.abs[cp.Name]
+		}
+		return l
 	case "stAttestersOf":
 		// attester list of the given state reference (st or old(st))
 		argn(1)
@@ -1241,6 +1275,19 @@ func (c *EvalCtx) call(e *Expr) Value {
 			cell = c.post.cells[m.Cell].(VMapVal)
 		}
 		return VBool{Select(cell.Set, c.bytesArg(e.Args[1]))}
+	case "decoded":
+		// decoded(T, field, bz): field of the proto message of type T that the bytes bz decode to (codec model)
+		argn(3)
+		if e.Args[0].Op != "ident" || e.Args[1].Op != "ident" {
+			fail("decoded(Type, Field, bytes)")
+		}
+		typ, field := e.Args[0].Name, e.Args[1].Name
+		for _, f := range protoTypes[typ] {
+			if f.Name == field || strings.ReplaceAll(f.Name, ".", "_") == field {
+				return wrapSort(dec(typ, f.Name, f.Sort, c.bytesArg(e.Args[2])))
+			}
+		}
+		fail("decoded: unknown field %s.%s", typ, field)
 	case "paginatedPrefix":
 		// the raw key prefix of the store handed to query.Paginate by this call ("" when none was made)
 		argn(0)
